@@ -1,6 +1,5 @@
 package h
 
-// Registry maps harness names to functions for the native replay driver.
-var Registry = map[string]func(){}
+import "github.com/twpayne/go-geom/internal/zzverif/sym"
 
-func register(name string, f func()) bool { Registry[name] = f; return true }
+func register(name string, f func()) bool { return sym.Register(name, f) }
